@@ -1044,6 +1044,13 @@ def member_query_family(ctx, n):
             want = cssutils.stylesheets.MediaQuery(good).mediaText
             if mq.mediaText != want or want not in ml.mediaText:
                 ctx.violation('member-query-set', dict(case, assign=good), 'query reads %r, list %r' % (mq.mediaText, ml.mediaText), KNOWN_PRED)
+            # count, indexing and iteration agree with what the members now are
+            fresh = cssutils.stylesheets.MediaQuery(good)
+            ms = _mqs(ml)
+            items = [ml.item(i_) for i_ in range(ml.length)]
+            if mq.mediaType != fresh.mediaType or ml.length != len(ms) or items != [m_.mediaType for m_ in ms]:
+                ctx.violation('count-index-iter', dict(case, assign=good), 'member mediaType %r (a fresh query says %r); length %r, item %r, members %r' % (
+                    mq.mediaType, fresh.mediaType, ml.length, items, [m_.mediaText for m_ in ms]), KNOWN_PRED)
         except xml.dom.DOMException as e:
             ctx.violation('member-query-set', dict(case, assign=good), 'a well-formed query was rejected: %s' % e, KNOWN_PRED)
 
